@@ -14,8 +14,9 @@ CLAIMS = {
         "model_checking",
         "explicit-state BFS over call histories of the real Sequence; model-free invariants on every transition",
         "All histories up to depth 3-5 (per world, see evidence) over a 30-33 op timing alphabet (add x 3 protocols, delay, "
-        "target, align, phase_shift, EOM and DMM ops, failing calls) on 5-7 channel configurations are executed on the real "
-        "Sequence; tiling, clock alignment, minimum durations, prefix stability, reported durations and agreement of the three "
+        "target, align, phase_shift, EOM and DMM ops, failing calls) on 8-10 channel configurations (incl. DMM declared first, two "
+        "locals, and a fall-tail world: several idle slots of lengths around the rise time between a pulse and every consumer of "
+        "its pending fall time, depth 4) are executed on the real Sequence; tiling, clock alignment, minimum durations, prefix stability, reported durations and agreement of the three "
         "timeline views (schedule, str, sampler) are checked on every transition.",
         "Bounded depth and alphabet; Pulse.fall_time trusted for the pending-fall-time clause (decided separately by C14).",
         "DESIGN.md §3 C02",
@@ -24,8 +25,9 @@ CLAIMS = {
         "model_checking",
         "explicit-state BFS over call histories; lock-step co-simulation with a reference scheduler (RefSched) re-seeded from "
         "the implementation's pre-state on every transition, plus model-free lower-bound monitors",
-        "All histories up to depth 2-4 over 18-33 op alphabets on 6 two-channel worlds (global+local on different / same basis, "
-        "two globals on one basis, global+DMM; bandwidths None/8/30 MHz, mixed per-channel bandwidths): every accepted add / "
+        "All histories up to depth 2-4 over 15-33 op alphabets on 9 two-channel worlds (global+local on different / same basis, "
+        "two globals on one basis, global+DMM, two locals, two fall-tail worlds with idle slots around the rise time; bandwidths "
+        "None/8/30 MHz, mixed per-channel bandwidths): every accepted add / "
         "align / delay is compared with RefSched's earliest admissible start; min-delay / wait-for-all lower bounds, the "
         "phase-shift barrier, exactness of no-delay, estimate_added_delay == inserted delay (and purity) and align's common end "
         "are checked model-free on every transition.",
@@ -38,8 +40,9 @@ CLAIMS = {
         "explicit-state BFS over call histories with an independent phase accumulator + RefSched phase-reference equality; "
         "exhaustive Ramsey grid on the emulator",
         "All histories up to depth 3-5 over 14-21 op alphabets (shifts of 1, -0.5, 7 > 2pi, 2pi, 0 on atom subsets and bases, "
-        "pulses with post-phase-shifts of either sign on global/local channels, retargets, EOM pulses) on 5 worlds (two channels "
-        "on one basis, two bases, DMM configured before the first channel, two globals): per transition every (basis, atom) "
+        "pulses with post-phase-shifts of either sign on global/local channels, retargets, EOM pulses) on 6 worlds (two channels "
+        "on one basis, two bases, DMM configured before the first channel, two globals, and the mirror image with the local "
+        "channel starting on the other atom, 3 atoms and integer qubit ids out of register order): per transition every (basis, atom) "
         "reference must change by exactly the op's increment (mod 2pi) and no other reference may move; every new pulse carries "
         "programmed phase + reference and starts after the latest shift of its targets. Ramsey pairs (two pi/2 pulses around a "
         "shift phi) are emulated for 29 phi values x 5 channel kinds x {phase_shift, post_phase_shift}: P = cos^2(phi/2) +- 1e-4.",
@@ -53,7 +56,9 @@ CLAIMS = {
         "RefSched equality",
         "All histories up to depth 3-5 over 10-11 op alphabets on corner configurations and on the product {phase-jump time "
         "derived/0/42} x {bandwidth none/8/30 MHz} x {clock 1/4} x {min duration 1/16} x {retarget interval 0/220} x {fixed "
-        "retarget 0/30} (144 configurations; quick covers a seed-rotated twelfth plus corners, thorough all): phase-jump gap >= "
+        "retarget 0/30} (144 configurations; quick covers corners plus a seed-rotated twelfth chosen as a covering design - every value of "
+        "every parameter and all four (retarget interval, fixed time) combinations in each slice -, thorough all; corners "
+        "include fixed retarget time > interval and a fall-tail world): phase-jump gap >= "
         "phase_jump_time + fall (>= 2 x EOM rise in EOM mode) unless no-delay, retarget interval / fixed time / ramp-down / "
         "same-target no-op on every state, exact gaps pinned by RefSched.",
         "Fall times are trusted inputs (C14); in EOM mode only the weakest reading is enforced model-free. Bounded depth/alphabet.",
@@ -64,12 +69,15 @@ CLAIMS = {
         "explicit-state BFS over valid call histories x exhaustive invalid-call and read-only menus at every reachable state; "
         "full-snapshot equality before/after; differential rebuild oracles",
         "Every state reachable by <= 2-4 valid calls (16-op core incl. EOM, DMM, variables, measure; XY world separately) is "
-        "hit with each of 74 invalid calls (one per failure cause and operation: durations, limits, targets, channels, names, "
-        "modes, protocols, over-long sequence via each op, foreign/unknown variables, calls after measure) and 14 read-only "
+        "hit with each of 78 invalid calls (one per failure cause and operation: durations, limits, targets, channels, names, "
+        "modes incl. mode refusals of calls that carry a variable, protocols, over-long sequence via each op, foreign/unknown "
+        "variables, calls after measure) and 14 read-only "
         "operations (str, sample +- modulation, draw with every flag, durations, phase refs, delay estimates, both serialisers, "
         "observers, build); a refused or read-only call must leave the full snapshot (timeline, EOM blocks, phase references, "
-        "mode flags, call log) identical; every state must equal its build() copy, its switch_register(same register) copy and, "
-        "up to depth 2-3, its abstract-repr round trip.",
+        "mode flags, call log) identical; every state must equal its build() copy, its switch_register(same register) copy, its switch_device(renamed "
+        "identical device) copy and, up to depth 2-3, its abstract-repr round trip; every copy then receives calls of every kind "
+        "(variable declaration, pulses, delays, phase shifts, align, channel declaration, measure) and the original must keep its "
+        "full snapshot.",
         "Known findings (non-atomic multi-step operations under max_sequence_duration, declare_channel with a bad initial "
         "target) are listed in known_findings.json. Bounded depth; fault menu as listed in mc/props/c09.py.",
         "DESIGN.md §3 C09",
@@ -80,11 +88,12 @@ CLAIMS = {
         "real Sequence through a witness history, plus concrete BFS with the model folded over each history and a mode-only "
         "consistency check",
         "A plain-Python typestate model (declared channels with id / EOM / target flags, XY-Ising-undecided, SLM reservation, "
-        "measured, parametrized, empty) is explored breadth-first over a 35-op alphabet covering the whole building API on a "
+        "measured, parametrized, empty) is explored breadth-first over a 45-op alphabet (incl. EOM / pulse ops on the second channel of each kind and "
+        "variable-carrying pulse / EOM-pulse calls) covering the whole building API on a "
         "reusable and a non-reusable device; for every abstract state and op the witness history + op is executed on the real "
         "Sequence and accept/refuse plus the observers (declared/available channels, is_parametrized, is_measured, "
-        "is_in_eom_mode) must agree (quick: fixpoint on the non-reusable device = 1376 states / 48k transitions, 4000-state cap on "
-        "the reusable one; thorough: both to fixpoint). Concrete BFS to depth 3-4 on three worlds groups histories by model "
+        "is_in_eom_mode) must agree, after accepted calls with the model's post-state and after refused calls with its pre-state "
+        "(a refusal keeps the mode) (quick: 4000-state cap per device, reported as not exhaustive; thorough: to fixpoint). Concrete BFS to depth 3-4 on three worlds groups histories by model "
         "mode and requires identical accept vectors inside a group.",
         "Arguments are value-valid so only the mode can cause refusals; data-dependent cases are left undecided by the model "
         "(listed in mc/typestate.py); <= 2 DMM channels per state.",
@@ -112,9 +121,11 @@ CLAIMS = {
         "with an independent renderer (RefRender) of the timeline snapshot",
         "All states reachable within depth 3-4 over 8-15 op rendering alphabets (pulses of distinct shape / phase / detuning on "
         "every channel, retargets, multi-target local channel, EOM blocks left open, DMM with a weight map, XY with an SLM mask "
-        "and two microwave channels, two globals on one basis, two locals) on 6 worlds: per channel array lengths, amplitude, "
+        "and two microwave channels, two globals on one basis, two locals, DMM declared first, automatic waits inside EOM blocks) "
+        "on 7 worlds: per channel array lengths, amplitude, "
         "detuning and phase over each pulse; per atom and basis the complex drive and weighted detuning from both "
-        "to_nested_dict layouts; extension by 1 and 37 ns pads with zeros / last phase / off-detuning.",
+        "to_nested_dict layouts; extension by 1 and 37 ns pads with zeros / last phase / off-detuning. Idle time inside an EOM block is "
+        "rendered from the block (mode), not from the kind of slot the implementation recorded.",
         "Known findings: channels merged into one nested-dict entry are combined by adding amplitudes and phases (two globals "
         "on a basis; global+local with all_local=True). Phase between pulses is not compared.",
         "DESIGN.md §3 C06",
@@ -123,9 +134,10 @@ CLAIMS = {
         "exploration",
         "explicit-state BFS over building histories; for every reached program the emulator's Hamiltonian is compared at every "
         "integer nanosecond with an independent dense Kronecker construction (RefHam) fed by the timeline snapshot",
-        "All programs reachable within depth 2-3 over 3-15 op alphabets on 8 worlds (two bases; global+local on one basis with a "
+        "All programs reachable within depth 2-3 over 3-15 op alphabets on 12 worlds (two bases; global+local on one basis with a "
         "permuted atom order; DMM weight map on a 3D register; XY with an SLM mask and two microwave channels; XY with tilted / "
-        "in-plane magnetic field on 2D and 3D registers; two globals on one basis; Rydberg levels 50/60/70/100): "
+        "in-plane magnetic field on 2D and 3D registers; two globals on one basis; DMM declared first; integer and string qubit ids whose sorted / index order differs from the "
+        "register order, in Ising, XY and DMM worlds; Rydberg levels 50/60/70/100): "
         "get_hamiltonian(t) == documented formula to 1e-9 and Hermitian to 1e-12 for every integer t, with the documented state "
         "ordering.",
         "Integer times only (QuTiP interpolates between samples); 2-3 atoms; C6 read from the JSON table, C3 = 3700. Known "
@@ -142,8 +154,9 @@ CLAIMS = {
         "durations around min / clock multiples / max; entry points add, add_dmm_detuning (sign, 4 weight maps), "
         "enable_eom_mode + add_eom_pulse, config_slm_mask. Both directions are checked: outside a limit => refused, inside "
         "every limit => accepted and scheduled unchanged (or only lengthened to the next clock multiple with the same defining "
-        "parameters). Monitor: every pulse slot of every state of a depth 2-4 BFS on two worlds with all limits and a 160 ns "
-        "device maximum.",
+        "parameters). Monitor: every pulse slot of every state of a depth 2-4 BFS on four worlds with / without limits; for every accepted "
+        "transition ending at E the same call is re-issued with max_sequence_duration = E (must be accepted) and E-1 (must be "
+        "refused).",
         "Detuning values within 1e-6 of a limit are a don't-care band; custom / composite waveforms may be refused for "
         "non-clock-multiple durations; waveform samples trusted (C16).",
         "DESIGN.md §3 C01",
@@ -152,13 +165,16 @@ CLAIMS = {
         "exploration",
         "exhaustive grid (full Cartesian products) over waveform classes x durations x parameter values with oracles "
         "written from the class docstrings",
-        "842 (quick) / ~1100 (thorough) cases, each running 10-200 assertions: every waveform class x durations "
+        "1.7k (quick) / 3.6k (thorough) cases, each running 10-200 assertions: every waveform class x durations "
         "{1,2,3,4,5,10,11,100,101} x parameters {-2,-1e-3,0,1e-3,1,20} (all pairs for ramps), interpolated waveforms with 2-4 "
         "points, explicit times incl. near-coincident ones and both interpolators, composite and custom waveforms: sample "
         "count and finiteness, documented values, window area / sign / symmetry, change_duration to two other durations, "
-        "scaling by {-2,-1,0.5,1,3}, division incl. by zero, negation, equality vs sample-wise closeness, every index and slice "
+        "scaling by {-2,-1,0.5,1,3}, division incl. by zero, negation, equality vs sample-wise closeness on both sides of the "
+        "numpy.isclose tolerance (one sample / all / positive / negative / alternating samples moved by 0.4 and 3 tolerances; "
+        "waveforms of both signs whose integral cancels), every index and slice "
         "for durations <= 5; from_max_val for area x max_val x beta of both signs (never exceeds, exact area, one ns shorter "
-        "would exceed for windows > 16 ns); pulses with phases {-7,-pi,-1e-12,0,1,2pi,7,100}; invalid pulses refused; "
+        "would exceed for windows > 16 ns), and max_val placed just above / below the peak of the d-ns window for EVERY duration "
+        "d = 17..259 (thorough ..699); pulses with phases {-7,-pi,-1e-12,0,1,2pi,7,100}; invalid pulses refused; "
         "ArbitraryPhase reproduces 6 phase-waveform kinds x 6 durations at every sample through phase_modulation.",
         "Grid values only; interpolated waveforms whose points coincide after rounding are a don't-care class.",
         "DESIGN.md §3 C16",
@@ -173,7 +189,10 @@ CLAIMS = {
         "identical across permutations; ==, hash and static_hash order independent; every ordered selection of <= 3 trap ids "
         "with unsorted qubit ids places each qubit exactly on its trap and is inverted by get_traps_from_coordinates (rounded "
         "and raw coordinates); mappable registers built with every insertion order keep the declared order; detuning maps "
-        "given in permuted order give each qubit its trap's weight, 0 off-trap, sorted weights aligned.",
+        "given in permuted order give each qubit its trap's weight, 0 off-trap, sorted weights aligned. Object histories: every "
+        "sequence of <= 3 (thorough 4) steps over 12 uses / caller-side edits (constructor argument; containers and arrays "
+        "returned by traps_dict, coords, sorted_coords, register.qubits, weights) on one 2D / 3D layout built from an array or a "
+        "list, compared after every step with a pristine layout of the same coordinates (7.5k histories).",
         "Grid values only; sets whose coordinates coincide after rounding must be refused or numbered consistently.",
         "DESIGN.md §3 C19",
     ),
@@ -197,7 +216,9 @@ CLAIMS = {
         "convolution) plus a modulated-sampling monitor on every state of a call-history BFS",
         "Filter axioms for bandwidth {2,8,30,100} MHz x input length {1,2,3,16,100,401} x keep_ends x EOM x 9 input families: "
         "output length = input + 2 rise times, finite, integral preserved (1e-9), no negative output from non-negative input, "
-        "no overshoot, pairwise linearity, tone at the bandwidth halved. Fall-time clause for bandwidth {2,4,8,30} (+4 more in "
+        "no overshoot, pairwise linearity, tone at the bandwidth halved (through apply_modulation and, as steady-state gain, "
+        "through Channel.modulate itself on the standard and the EOM path incl. bandwidths whose rise time 480/bw is not a whole "
+        "number of ns). Fall-time clause for bandwidth {2,4,8,30} (+4 more in "
         "thorough) x duration {16,52,100,401} x amplitude {0.1,1,20} x 11 amplitude and 6 detuning shapes (incl. composites "
         "ending in a short zero / low hold and sign-changing ramps) and EOM bandwidths 20/40: the true output beyond duration + "
         "Pulse.fall_time stays below max(0.01, 0.6 % of peak). Sequences: modulated sampling succeeds whenever plain sampling "
@@ -212,12 +233,14 @@ CLAIMS = {
         "exploration",
         "exhaustive program x deviation enumeration (ProgX): skeleton programs with every subset of numeric argument positions "
         "replaced by variable expressions; template.build(values) vs direct construction compared on canonical snapshots",
-        "2458 cases: 7 skeleton programs (all waveform classes, delays, phase shifts, EOM with drift correction, DMM, index "
+        "3.5k cases: 7 skeleton programs (all waveform classes, delays, phase shifts, EOM with drift correction, DMM, index "
         "targeting, XY; 6-12 numeric positions each) x every subset of positions turned into variable expressions (14 kinds: "
         "scalar, array item, 2v, v+1, -v, v/2, v**2, abs, sqrt, sin, floor, ceil, round, nested; whole-array variables for "
         "interpolation points), every kind at every single position and every kind pair on two positions; each template is built "
         "for assignments A, B in the orders A,B,A and B,A,A, after a failed build, and compared with the same calls issued "
-        "directly on evaluated values; the template's full snapshot (incl. stored calls) must be unchanged by every build. "
+        "directly on evaluated values (second pass: values handed over as caller-owned arrays edited in place); the template's "
+        "full snapshot (incl. stored calls) must be unchanged by every build; every subset template is also built on a "
+        "MappableRegister resolved at build time (any prefix of the program concrete). "
         "Mappable registers: 3 unsorted declared-id orders x every injective mapping of 1-3 ids onto 4 traps x every mapping "
         "insertion order x every index: declared order, trap positions, index-based targeting and equality with direct "
         "construction on the concrete register.",
@@ -229,10 +252,11 @@ CLAIMS = {
         "exploration",
         "exhaustive program x deviation enumeration (ProgX) through both codecs with a differential oracle on canonical "
         "snapshots and an independently compiled schema validator",
-        "563 (quick) / ~1500 (thorough) programs: 5 program families covering every building operation x argument-style "
+        "768 (quick) / ~1700 (thorough) programs: 5 program families covering every building operation x argument-style "
         "deviations (positional / keyword / omitted / explicit default; each alone and pairs) x registers {2D, 3D, from a "
         "layout, mappable} x devices {inline virtual with EOM+DMM, MockDevice by name, custom physical} x parametrized variants "
-        "(each numeric position alone and all together as variable expressions). For each: document valid under the published "
+        "(each numeric position alone and all together as variable expressions) x qubit ids {strings, integers 0..2, integers "
+        "out of register order: decoded == the program written with str(id)}. For each: document valid under the published "
         "schema (own validator) , decoding succeeds, device and register equal, decoded snapshot equal (or, when parametrized / "
         "mappable, builds for two assignments equal), encode-decode-encode is a fixpoint, measurement and variables equal, and "
         "encoding leaves the original's full snapshot (incl. call log) unchanged; abstract and legacy codecs.",
@@ -244,14 +268,19 @@ CLAIMS = {
         "exhaustive program x device-pair enumeration (ProgX) with a differential snapshot oracle (strict) and the C01/C02 "
         "predicates on the new device (non-strict)",
         "161 programs (every history of <= 2 ops over a 12-op alphabet incl. EOM with drift correction, DMM, retarget, align, "
-        "phase changes; plus 4 long ones) x 75 ordered device pairs (base <-> 25 single-parameter variants of clock, min "
+        "phase changes; plus 4 long ones) and 10 auxiliary programs (SLM mask with default / positional / keyword DMM id before "
+        "and after the first channel or pulse in Ising, XY and undetermined mode, magnetic field, measurement, variables) x 77 "
+        "ordered device pairs (base <-> 26 single-parameter variants incl. a renamed identical device, to which every switch must "
+        "succeed and change nothing; of clock, min "
         "duration, bandwidth, phase-jump time, retarget interval, fixed retarget time, EOM bandwidth / buffer / beams / absence, "
         "amplitude / detuning / duration limits, reusability, Rydberg level, max sequence duration, DMM bottoms; base -> 25 "
         "two-parameter variants; thorough: all 300 pairs of variants) x strict in {True, False} = 24.6k switches: strict either "
         "raises or returns an identical timeline / EOM blocks / phase references; non-strict either raises or satisfies every "
         "limit of the new device with a well-formed timeline; the original is never modified; switch_register to an equal, a "
-        "moved and a re-ordered register keeps the timeline.",
-        "Consecutive plain delays are merged before comparing strict switches (idle time may be partitioned differently).",
+        "moved and a re-ordered register keeps the timeline; to a MappableRegister with the same ids it is refused or keeps every "
+        "stored instruction and builds to the original timeline.",
+        "Consecutive plain delays are merged and derived DMM channel names normalised before comparing strict switches. Known "
+        "findings: strict ignores min_duration and the SLM-mask DMM's bottom detuning.",
         "DESIGN.md §3 C18",
     ),
     "C17": (
@@ -273,13 +302,17 @@ CLAIMS = {
         "exploration",
         "exhaustive sweeps on the real emulators: every integer duration, programs x noise x evaluation-time settings, every "
         "basis-state tuple, and every tape of numpy.random answers (owned RNG)",
-        "58k cases (quick): every duration 4..1500 ns (thorough 12000) of a resonant pulse - legacy norm, analytic Rabi "
+        "65k cases (quick): every duration 4..1500 ns (thorough 12000) of a resonant pulse - legacy norm, analytic Rabi "
         "population, V2 backend returns and stores the same final state; 8 programs x 7 noise configurations x 4 evaluation-time "
         "settings x sampling rates {1, 0.5, (0.1)} - every stored state normalised / unit-trace / Hermitian / positive, times "
         "ascending, V2 == legacy at equal times, zero drive keeps the state; every basis-state tuple of 1-4 atoms in each of 8 "
         "eigenbases x measurement bases as ket and density matrix -> documented bitstring through the legacy result object "
         "and the V2 state; every tape of RNG answers (interval interiors, both end points, rate-/rate/rate+) for 1-2 shots on 4 "
-        "distributions x 4 detection-error settings against a reference function of the tape.",
+        "distributions x 4 detection-error settings against a reference function of the tape (V2 state and legacy results "
+        "object); state-preparation errors: every pattern of badly prepared atoms over 2-3 runs; the legacy emulator as a "
+        "stateful object: every history of <= 3 (thorough 4) configuration calls (set_initial_state x 3, set_config x 3, "
+        "add_config x 3, reset_config, set_evaluation_times x 3) on one emulator vs a fresh emulator configured with the net "
+        "settings of a reference model (3.8k histories).",
         "Solver tolerances as listed in the evidence; Rabi value required within the range spanned by effective durations "
         "[T-1, T]; large-shot statistics are not decided.",
         "DESIGN.md §3 C11",
@@ -288,14 +321,16 @@ CLAIMS = {
         "exploration",
         "exhaustive grids of states x Hamiltonians / operator representations x observables against numpy trace "
         "definitions; end-to-end V2 runs over evaluation-time configurations; BitStrings under enumerated RNG tapes",
-        "20.6k cases (quick): a 9-member state family (basis states, uniform, signed/complex, entangled, 1/4-3/4 mixture, "
+        "22.5k cases (quick): a 9-member state family (basis states, uniform, signed/complex, entangled, 1/4-3/4 mixture, "
         "maximally mixed, diagonal) as ket and density matrix x 6 eigenstate sets (2, 3, 4 levels) x 1-3 qudits x 3 "
         "Hamiltonians: Occupation, CorrelationMatrix, Energy, EnergySecondMoment, EnergyVariance, Fidelity against every pure "
         "member, Expectation of a non-Hermitian operator, operator +, scalar*, @ and apply_to == matrix algebra; 6 "
         "operator-representation shapes and 4 amplitude sets per (levels, qudits) == explicit Kronecker products, probabilities "
         "and basis-state indexing; end-to-end runs over per-observable time lists (unsorted, near-duplicate) x default times x "
         "noise: ascending unique times, retrieval by observable and tag, stored values == definitions on the stored state and "
-        "noiseless Hamiltonian; BitStrings under every tape of a 6-value menu per draw x detection-error settings.",
+        "noiseless Hamiltonian; BitStrings under every tape of a 6-value menu per draw x detection-error settings; every sequence "
+        "duration 16..329 ns (thorough ..1499) x 6 evaluation-time lists not starting at 0: exactly one stored value per requested "
+        "time.",
         "Known finding: observables with own evaluation times are also stored at the default times.",
         "DESIGN.md §3 C20",
     ),
